@@ -10,10 +10,14 @@ for f in sorted(glob.glob(os.path.join(ROOT, 'seeded', '*', 'meta.json'))):
     if len(s) > 230:
         s = s[:227] + '...'
     r = (m.get('result') or '').replace('\n', ' ').replace('|', '/')
+    note = (m.get('note') or '').replace('\n', ' ').replace('|', '/')
+    if note:
+        r += ' - ' + (note if len(note) <= 420 else note[:417] + '...')
     rows.append('| %s | %s | %s | %s |' % (name, m.get('property'), s, r))
 table = ('### 0.5 Seeded changes (from fresh sub-agents that saw only the property text) and the checks that catch them\n\n'
          'Each change compiles, passes the relevant repository tests, and comes with a demonstration (seeded/<name>/agent_demo.cpp)\n'
          'that fails with it and passes without it; `bin/seedtest` applies it to /repo, runs the check, and reverts.\n\n'
+         + open(os.path.join(ROOT, 'docs', 'seed_summary.md')).read() +
          '| Seed | Prop | Change | Outcome |\n|------|------|--------|---------|\n' + '\n'.join(rows) + '\n\n')
 p = os.path.join(ROOT, 'DESIGN.md')
 s = open(p).read()
